@@ -6,6 +6,11 @@ BASE = "cd /repo && go test -mod=mod -json -vet=off -count=1 -timeout 25m ./..."
 
 CLAIMED = {
  # id: (category, text, design_ref, level_note, technique)
+ "C17": ("other",
+  "Structural clauses of 'always answers' and of the reporting rules, decided on every path of the runner: the deferred result encoding is registered first in the entry block and encodeResults calls Encode on the runner's writer exactly once on every path (one document per exit); every interface value dereferenced between decoding and Run and every argument of Run is non-nil on all paths (nil-ness lattice with per-return-site summaries; found and fixed the no-inputs request); the catalogue factory is nil-checked before the call; a float64 enters the result tree only through JsonSafeValue under !IsNaN && !IsInf(.,0) and every element/map entry comes from the JSON-safe functions; defaults are returned only with a message, defaulted parameters and missing inputs append warnings and all warnings are logged before Run; the runner lacks the dimension handshake of its sibling entry points (known finding). Equivalence with a direct run and panic-freedom of kernels are NOT decided.",
+  "DESIGN.md section 2, C17",
+  "Results of TimeSteppingModel interface methods are assumed non-nil by contract. Kernels run in goroutines the runner cannot recover; their panic-freedom is a value property.",
+  "must-pass-through / dominance checks + interprocedural nil-ness lattice + guard-edge check of the non-finite encoding on go/ssa"),
  "C14": ("other",
   "Structural necessary conditions of purity and causality, decided over every module function reachable (VTA call graph) from any wrapper method and over every kernel: no write of a package-level variable and no read of one that is written outside package initialisation; model struct fields are assigned only by ApplyParameters/InitialiseDimensions; no call of time.Now/rand/os.Getenv/file reads and no map iteration; in every kernel each read of an input series and each write of an output series inside the time loop uses the loop's own induction variable as time index (through the reaching store of the one-element index vector), inputs are read outside the loop only at index 0, no whole-series reduction of an input. Together these are sufficient for 'outputs up to t do not depend on inputs after t' given Get/Set semantics (C01). Bit-identity as such is not executed or compared.",
   "DESIGN.md section 2, C14",
